@@ -537,6 +537,8 @@ def corpus(tier):
             for pl in near:
                 add([part("field", "a", pl), part("file", "f", pl + pl, filename="z")], boundary=bd, nlname=nlname)
             add(base, boundary=bd, nlname=nlname, preamble=b"pre")
+            add([part("field", "a", b"v1"), part("file", "f", b"data--" + bd[:3], filename="n.txt", ctype="text/plain")],
+                boundary=bd, nlname=nlname)
     # crlf only: payloads with the mixed newline look-alikes
     mixed = [b"\r", b"\n", b"\r\n", b"\n\r", b"\r\r\n", b"\r\n\r", b"\r\n-", b"\r\n--", b"\r\n--b", b"\n--b",
              b"\r--b", b"\r\n--bx", b"--b\r", b"\nxxx\r", b"\nxxxx\r", b"x\n--\r", b"\n-----\r", b"\r\n--b-",
@@ -575,12 +577,13 @@ def corpus_padding_long():
 def task_corpus(args):
     tier, lo, hi, seed = args
     L = Local()
-    rnd = common.rng(seed, f"c01-corpus-{lo}")
+    # the quick tier is purely enumerative; seeded random schedules only in the thorough tier
+    rnd = common.rng(seed, f"c01-corpus-{lo}") if tier == "thorough" else None
     cases = corpus(tier)[lo:hi]
     for c in cases:
         n = len(c["body"])
         check_body(L, c, do3=(n <= (400 if tier == "thorough" else 110)), hl=(n <= 1200), rnd=rnd,
-                   krandom=(40 if tier == "thorough" else 10), wsgi=(n <= 400))
+                   krandom=(40 if tier == "thorough" else 0), wsgi=(n <= 400))
     return L.pack(), 0
 
 
@@ -701,13 +704,13 @@ def _domain(tier):
          "splits, every buffer_size 1..len+1 and short-read schedules of MultiPartParser; boundary b'bb' length<=%s "
          "(file parts); 2 parts (field+file, payloads length<=%s or body-less) x 2-way, (two fields, %s) x 3-way; 3 parts "
          "(length<=%s or body-less, repeated field name) x 2-way; corpus (0 parts, preamble/epilogue, optional first "
-         "line break, padding of 1-2 blanks, long lines 20..200, binary, boundaries of 2/37/70 bytes and with regex "
-         "metacharacters, with near-copies) x 2-way, 3-way (len<=%s), byte-at-a-time, %s seeded random k-way splits, "
+         "line break, padding of 1-2 blanks, extra and folded headers, long lines 20..200, binary, boundaries of 2/37/70 bytes and with regex "
+         "metacharacters, with near-copies) x 2-way, 3-way (len<=%s), byte-at-a-time, %s"
          "parse_form_data over short-reading wsgi.input; separate input class padding_long (9..40 blanks of transport "
          "padding). Check names carry the input class (plain | nl_payload | bodyless | padding_long). Payloads that themselves contain a delimiter line are not bodies of the intended shape and are "
          "skipped (counted in skipped_out_of_domain)." % (
-             (7, 10, 5, 6, 3, "both length<=1", 2, 400, 40) if t else
-             (5, 7, 3, 4, 2, "first length<=1, second in {body-less, empty, CR, LF}", 1, 110, 10)))
+             (7, 10, 5, 6, 3, "both length<=1", 2, 400, "40 seeded random k-way splits, ") if t else
+             (5, 7, 3, 4, 2, "first length<=1, second in {body-less, empty, CR, LF}", 1, 110, "")))
     if t:
         d += (" Plus 5760 seeded random bodies (1-4 parts, 5 boundaries, payloads of up to 12 atoms incl. NUL/0xFF/"
               "near-boundaries) x 2-way, bytewise, 3-way (len<=130), 30 random k-way splits, parser buffer sizes "
@@ -718,7 +721,7 @@ def _domain(tier):
 def run(tier: str, seed: int, reg=None) -> dict:
     common.assert_tree()
     col = common.Collector(RULE, _domain(tier))
-    col.exhaustive = True  # the stated enumerations are complete; random parts are stated as samples
+    col.exhaustive = tier != "thorough"  # quick: pure enumeration of the stated domain; thorough adds seeded samples
     tasks = _tasks(tier, seed)
     # big tasks first
     nproc = min(16, os.cpu_count() or 1)
